@@ -29,6 +29,9 @@ pub struct Scn {
     pub print_msgs: bool,
     #[serde(default)]
     pub print_opcode: bool,
+    /// wait-for-start mode: the run begins paused, `ready` is emitted, `cmd:start` arrives at this iteration
+    #[serde(default)]
+    pub start_at: Option<u64>,
 }
 
 #[derive(Clone, Debug, PartialEq)]
@@ -172,12 +175,19 @@ fn reference_run(scn: &Scn, g: &Option<Guest>, charges: &[u64]) -> Result<RefTra
     })
 }
 
+fn start_events(scn: &Scn) -> Vec<Event> {
+    match scn.start_at {
+        Some(k) => vec![Event { trig: Trigger::Iter(k), act: Action::Lines(vec!["cmd:start".to_string()]) }],
+        None => vec![],
+    }
+}
+
 /// Charges of a real run under the fast clock: one per executed instruction.
 fn observe_charges(scn: &Scn, g: &Option<Guest>) -> Result<Vec<u64>, Failure> {
     let gg = g.clone().unwrap_or_else(empty_guest);
-    let cfg = SysCfg { wait_start: false, clock: ClockModel::Fast, clock_seed: 0, step_cap: scn.step_cap + 8, print_msgs: false, print_opcode: false };
+    let cfg = SysCfg { wait_start: scn.start_at.is_some(), clock: ClockModel::Fast, clock_seed: 0, step_cap: scn.step_cap + 8 + scn.start_at.unwrap_or(0), print_msgs: false, print_opcode: false };
     let scn2 = scn.clone();
-    let (run, _) = run_sys(&gg, &cfg, &[], NullObserver, true, move |sim| {
+    let (run, _) = run_sys(&gg, &cfg, &start_events(scn), NullObserver, true, move |sim| {
         if let Some(path) = &scn2.elf {
             crate::elf::load(path.clone(), &mut sim.cpu, scn2.args.clone());
         }
@@ -187,7 +197,9 @@ fn observe_charges(scn: &Scn, g: &Option<Guest>) -> Result<Vec<u64>, Failure> {
     }
     let mut out = Vec::with_capacity(run.rows.len());
     for w in run.rows.windows(2) {
-        out.push(w[1].state - w[0].state);
+        if w[1].state != w[0].state || w[1].pc != w[0].pc {
+            out.push(w[1].state - w[0].state);
+        }
     }
     if let Some(l) = run.rows.last() {
         out.push(run.fin.state_sum.saturating_sub(l.state));
@@ -200,12 +212,14 @@ struct LoopObserver {
     idx: usize,
     syncs: u64,
     lock: TimerLockstep,
-    pending_store: Option<(u32, u8)>,
+    pending_store: Vec<(u32, crate::harness::decode::ByteStore)>,
     check_timer: bool,
     msgs_nosync: Vec<String>,
     all_msgs: Vec<String>,
     sig: Fnv,
     max_iter: u64,
+    wait_start: bool,
+    ready_seen: bool,
 }
 
 impl Observer for LoopObserver {
@@ -216,6 +230,13 @@ impl Observer for LoopObserver {
         let mut nsync = 0;
         for m in new {
             self.all_msgs.push(m.clone());
+            if m == "ready" {
+                if row.iter != 0 || !self.wait_start || self.ready_seen {
+                    return Err(Failure::new("c13.messages", format!("unexpected `ready` message at iteration {}", row.iter)));
+                }
+                self.ready_seen = true;
+                continue;
+            }
             if let Some(t) = m.strip_prefix("sync:") {
                 nsync += 1;
                 self.syncs += 1;
@@ -229,6 +250,17 @@ impl Observer for LoopObserver {
             } else {
                 self.msgs_nosync.push(m.clone());
             }
+        }
+        if row.iter == 0 && self.wait_start && !self.ready_seen {
+            return Err(Failure::new("c13.messages", "wait-for-start mode but no `ready` message before the first poll".to_string()));
+        }
+        let paused_iteration = prev.map(|p| p.state == row.state && p.pc == row.pc).unwrap_or(false);
+        if paused_iteration {
+            if nsync != 0 {
+                return Err(Failure::new("c13.sync", format!("iteration {}: a sync message while paused", row.iter)));
+            }
+            self.max_iter = row.iter;
+            return Ok(());
         }
         if let Some(p) = prev {
             let crossed = row.state / SYNC_INTERVAL - p.state / SYNC_INTERVAL;
@@ -260,7 +292,7 @@ impl Observer for LoopObserver {
             return Err(Failure::new("c13.sync", "sync message before the first instruction".to_string()));
         }
         if self.check_timer {
-            self.lock.boundary(cpu, g, row, prev, self.pending_store).map_err(|e| Failure::new("c13.timebase.peripherals", e))?;
+            self.lock.boundary(cpu, g, row, prev, &[], &self.pending_store).map_err(|e| Failure::new("c13.timebase.peripherals", e))?;
             self.pending_store = decode_timer_store(cpu, row.pc, &cpu.er);
         }
         self.max_iter = row.iter;
@@ -281,21 +313,23 @@ struct RunSummary {
 
 fn real_run(scn: &Scn, g: &Option<Guest>, reft: &std::rc::Rc<RefTrace>, clock: &(ClockModel, u64), stats: &mut Stats) -> Result<RunSummary, Failure> {
     let gg = g.clone().unwrap_or_else(empty_guest);
-    let cfg = SysCfg { wait_start: false, clock: clock.0.clone(), clock_seed: clock.1, step_cap: scn.step_cap + 8, print_msgs: scn.print_msgs, print_opcode: scn.print_opcode };
+    let cfg = SysCfg { wait_start: scn.start_at.is_some(), clock: clock.0.clone(), clock_seed: clock.1, step_cap: scn.step_cap + 8 + scn.start_at.unwrap_or(0), print_msgs: scn.print_msgs, print_opcode: scn.print_opcode };
     let obs = LoopObserver {
         reft: reft.clone(),
         idx: 0,
         syncs: 0,
         lock: TimerLockstep::new(),
-        pending_store: None,
+        pending_store: vec![],
         check_timer: g.is_some(),
         msgs_nosync: vec![],
         all_msgs: vec![],
         sig: Fnv::new(),
         max_iter: 0,
+        wait_start: scn.start_at.is_some(),
+        ready_seen: false,
     };
     let scn2 = scn.clone();
-    let (run, mut obs) = run_sys(&gg, &cfg, &[], obs, false, move |sim| {
+    let (run, mut obs) = run_sys(&gg, &cfg, &start_events(scn), obs, false, move |sim| {
         if let Some(path) = &scn2.elf {
             crate::elf::load(path.clone(), &mut sim.cpu, scn2.args.clone());
         }
@@ -453,7 +487,7 @@ impl Property for C13 {
         let every = if tier == Tier::Quick { 400 } else { 2000 };
         if index % every < EXAMPLES.len() as u64 {
             let (p, a) = EXAMPLES[(index % every) as usize];
-            return Scn { guest: None, elf: Some(p.to_string()), args: a.to_string(), clocks, step_cap: 30_000_000, print_msgs: false, print_opcode: false };
+            return Scn { guest: None, elf: Some(p.to_string()), args: a.to_string(), clocks, step_cap: 30_000_000, print_msgs: false, print_opcode: false, start_at: None };
         }
         // "exact landing": a guest whose cumulative state count equals 6,000,000 exactly at an instruction boundary
         // (every charge is a multiple of 3 and mostly of 6, so 2M and 4M cannot be hit exactly, 6M can). The padding is
@@ -472,7 +506,7 @@ impl Property for C13 {
                     blocks.push(Block::Delay(60_000));
                 }
                 let guest = GuestSpec { blocks, handlers: vec![], code_dram: false, stack_dram: false, data_dram: false, vec_top: 0, sub_delay: 1, init_ccr: None, stack_off: 0, exit_style: 0 };
-                let scn = Scn { guest: Some(guest), elf: None, args: String::new(), clocks: clocks.clone(), step_cap: 1_000_000, print_msgs: false, print_opcode: false };
+                let scn = Scn { guest: Some(guest), elf: None, args: String::new(), clocks: clocks.clone(), step_cap: 1_000_000, print_msgs: false, print_opcode: false, start_at: None };
                 if let Ok(g) = scn.guest.as_ref().unwrap().assemble() {
                     if let Ok(t) = reference_run(&scn, &Some(g), &[]) {
                         let mut sum = 0u64;
@@ -578,12 +612,13 @@ impl Property for C13 {
             sub_delay: rng.range(1, 20) as u16,
             init_ccr: Some(if masked { 0x80 | rng.u8() } else { rng.u8() & 0x7f }),
             stack_off: if rng.chance(1, 2) { 0 } else { 4 * rng.below(64) as u16 },
-            exit_style: if rng.chance(1, 2) { 0 } else { rng.below(5) as u8 },
+            exit_style: if rng.chance(1, 2) { 0 } else { rng.below(8) as u8 },
         };
         let est = super::c10::estimate_iters(&guest);
         let print_msgs = rng.chance(1, 8);
         let print_opcode = est < 4000 && rng.chance(1, 6);
-        Scn { guest: Some(guest), elf: None, args: String::new(), clocks, step_cap: est * 4 + 50_000, print_msgs, print_opcode }
+        let start_at = if rng.chance(1, 8) { Some(rng.below(6)) } else { None };
+        Scn { guest: Some(guest), elf: None, args: String::new(), clocks, step_cap: est * 4 + 50_000, print_msgs, print_opcode, start_at }
     }
 
     fn execute(scn: &Scn, stats: &mut Stats) -> Verdict {
@@ -665,6 +700,9 @@ impl Property for C13 {
         }
         if scn.elf.is_some() {
             bump(stats, "probe.example_elf_through_real_loader");
+        }
+        if scn.start_at.is_some() {
+            bump(stats, "event.wait_for_start_mode");
         }
         {
             let mut sum = 0u64;
